@@ -21,5 +21,7 @@ import ast
 out['__module_constants__'] = {short: sorted({t.id for s_ in mod.tree.body if isinstance(s_, ast.Assign) for t in s_.targets if isinstance(t, ast.Name) and _CONST_NAME.match(t.id)})
                                for short, mod in sorted(m.modules.items())}
 out['__module_constants__'] = {k: v for k, v in out['__module_constants__'].items() if v}
+# every function name of the anchored tree (a private helper that is not among them was split off by a refactoring of the tree under test)
+out['__functions__'] = {short: sorted({q.rsplit('.', 1)[-1] for q, _ in _qualified(mod.tree)}) for short, mod in sorted(m.modules.items())}
 json.dump(out, open(os.path.join(V, 'oracles', 'local_names.json'), 'w'), indent=0, sort_keys=True)
-print(sum(len(v) for k, v in out.items() if k != '__module_constants__'), 'functions with locals;', out['__module_constants__'])
+print(sum(len(v) for k, v in out.items() if not k.startswith('__')), 'functions with locals;', out['__module_constants__'])
